@@ -80,7 +80,7 @@ func (p *Pool) get() (*proc, error) {
 		return w, nil
 	}
 	p.mu.Unlock()
-	cmd := exec.Command("node", "--stack-size=4000", p.Script)
+	cmd := exec.Command("node", "--stack-size=4000", "--max-old-space-size=3072", p.Script)
 	cmd.Stderr = os.Stderr
 	in, _ := cmd.StdinPipe()
 	outp, _ := cmd.StdoutPipe()
